@@ -457,11 +457,95 @@ pub fn eval_hole(c: &HoleCase) -> CaseOut {
     out
 }
 
+// ---------------------------------------------------------------------------------------------------------
+// unacceptable names that case-fold onto an entry that exists
+
+#[derive(Clone, Debug, Serialize, Deserialize)]
+pub struct FoldCase {
+    /// characters of the existing name ("s" or "i" repeated) and of the unacceptable one (long s / dotless i repeated:
+    /// two bytes each, so the name is longer than 255 bytes although it has no more than 255 characters)
+    pub chars: u16,
+    pub dotless_i: bool,
+    /// 0 = create_file, 1 = create_dir, 2 = rename of another file to the name; +3: the existing entry is a directory
+    pub mode: u8,
+}
+
+/// A name of more than 255 bytes is not acceptable whatever it folds to: the call fails with the length error and
+/// leaves the image as it was, also when an entry exists whose name the unacceptable one equals under case folding.
+pub fn eval_fold(c: &FoldCase) -> CaseOut {
+    let mut out = CaseOut::default();
+    out.hash = run::hash_str(&format!("fold|{}|{}|{}", c.chars, c.dotless_i, c.mode));
+    out.nontrivial = true;
+    let dev = match vol::make_device(&VolCfg::from_preset(1)) {
+        Ok(d) => d,
+        Err(e) => {
+            out.violation = Some(format!("HARNESS: {}", e));
+            return out;
+        }
+    };
+    let (plain, odd) = if c.dotless_i { ("i", "\u{131}") } else { ("s", "\u{17f}") };
+    let existing = plain.repeat(c.chars as usize);
+    let bad = odd.repeat(c.chars as usize);
+    let existing_is_dir = c.mode >= 3;
+    let mode = c.mode % 3;
+    let clock = Clock::new(500_000_000_000);
+    let setup = (|| -> Result<(), String> {
+        let s = Session::mount(&dev, &clock, &MountOpts::default()).map_err(|e| format!("mount: {:?}", e))?;
+        let r = s.root();
+        if existing_is_dir {
+            r.create_dir(&existing).map(|_| ()).map_err(|e| format!("{:?}", e))?;
+        } else {
+            r.create_file(&existing).map(|_| ()).map_err(|e| format!("{:?}", e))?;
+        }
+        r.create_file("other.txt").map(|_| ()).map_err(|e| format!("{:?}", e))?;
+        drop(r);
+        s.unmount().map_err(|e| format!("{:?}", e))
+    })();
+    if let Err(e) = setup {
+        out.violation = Some(format!("HARNESS: setup failed: {}", e));
+        return out;
+    }
+    let before = dev.bytes();
+    let devh = dev.handle();
+    let bad2 = bad.clone();
+    let r = guard(move || {
+        let s = Session::mount(&devh, &clock, &MountOpts::default()).map_err(|e| format!("mount: {:?}", e))?;
+        let root = s.root();
+        let res = match mode {
+            0 => root.create_file(&bad2).map(|_| ()),
+            1 => root.create_dir(&bad2).map(|_| ()),
+            _ => root.rename("other.txt", &root, &bad2),
+        }
+        .map_err(|e| ek(&e));
+        drop(root);
+        drop(s);
+        Ok::<_, String>(res)
+    });
+    let what = ["create_file", "create_dir", "rename(\"other.txt\", root, ..)"][mode as usize];
+    match r {
+        Caught::Panic(p) => out.violation = Some(format!("{} of a {}-byte name panicked: {}", what, bad.len(), p)),
+        Caught::Ok(Err(e)) => out.violation = Some(format!("HARNESS: {}", e)),
+        Caught::Ok(Ok(Ok(()))) => out.violation = Some(format!("{} of a name of {} bytes ({} x U+{:04X}) succeeded: the name is not acceptable, it merely folds onto the existing {} {:?}", what, bad.len(), c.chars, odd.chars().next().unwrap() as u32, if existing_is_dir { "directory" } else { "file" }, existing)),
+        Caught::Ok(Ok(Err(k))) => {
+            if k != EK::InvalidFileNameLength {
+                out.violation = Some(format!("{} of a name of {} bytes ({} x U+{:04X}, folding onto an existing entry) failed with {:?}, expected InvalidFileNameLength", what, bad.len(), c.chars, odd.chars().next().unwrap() as u32, k));
+            } else if dev.bytes() != before {
+                out.violation = Some(format!("{} of a name of {} bytes was rejected but changed the image", what, bad.len()));
+            }
+        }
+    }
+    out
+}
+
 fn fail(c: &NameCase, m: String) -> Failure {
     Failure { message: m, case: serde_json::to_value(c).unwrap(), kind: "name".into() }
 }
 
 pub fn replay(v: &serde_json::Value) -> Result<Option<String>, String> {
+    if v["kind"].as_str() == Some("fold") {
+        let c: FoldCase = serde_json::from_value(v["case"].clone()).map_err(|e| format!("bad case: {}", e))?;
+        return Ok(eval_fold(&c).violation);
+    }
     if v["kind"].as_str() == Some("hole") {
         let c: HoleCase = serde_json::from_value(v["case"].clone()).map_err(|e| format!("bad case: {}", e))?;
         return Ok(eval_hole(&c).violation);
@@ -485,7 +569,7 @@ fn name_with(c: char, pos: u8) -> String {
 }
 
 pub fn run(tier: Tier, seed: u64) -> i32 {
-    let rule = "names through create_file, create_dir and rename on a fresh tiny volume each: every ASCII character alone and embedded; every BMP scalar (quick: one call kind per (character, position), thorough: all three) and 2000 astral ones as first / middle / last character; byte lengths 0..300 built from 1-, 2- and 3-byte characters; random strings; oracle = independent acceptance predicate (1..=255 UTF-8 bytes, documented character set) => rejected names fail with a matching error kind and leave the image byte-identical, accepted names are listed unit for unit, found by name, case variants and alias (read by refdec) and not found by near-misses (folding = std char::to_uppercase); plus every rejected name of a fixed list (empty, 256/300 bytes in 1-, 2-, 3-byte characters, every unacceptable ASCII character alone / embedded / in a long name, U+FFFF) through nine call shapes that create an entry (create in a subdirectory, rename, file and directory moves in every direction): matching error kind and a byte-identical image; plus names of 20 lengths created (file, directory, rename) into holes left by names of 12 lengths between two long-named neighbours: all three names listed character for character, live and after a remount; non-trivial = accepted non-ASCII or >= 14 units, or rejected; distinct by (name, call kind)";
+    let rule = "names through create_file, create_dir and rename on a fresh tiny volume each: every ASCII character alone and embedded; every BMP scalar (quick: one call kind per (character, position), thorough: all three) and 2000 astral ones as first / middle / last character; byte lengths 0..300 built from 1-, 2- and 3-byte characters; random strings; oracle = independent acceptance predicate (1..=255 UTF-8 bytes, documented character set) => rejected names fail with a matching error kind and leave the image byte-identical, accepted names are listed unit for unit, found by name, case variants and alias (read by refdec) and not found by near-misses (folding = std char::to_uppercase); plus every rejected name of a fixed list (empty, 256/300 bytes in 1-, 2-, 3-byte characters, every unacceptable ASCII character alone / embedded / in a long name, U+FFFF) through nine call shapes that create an entry (create in a subdirectory, rename, file and directory moves in every direction): matching error kind and a byte-identical image; plus names of 20 lengths created (file, directory, rename) into holes left by names of 12 lengths between two long-named neighbours: all three names listed character for character, live and after a remount; plus names of more than 255 bytes that case-fold onto an existing file or directory (128..255 long s / dotless i against as many s / i): rejected with the length error, image unchanged; non-trivial = accepted non-ASCII or >= 14 units, or rejected; distinct by (name, call kind)";
     let mut rep = Report::new("C15", tier, seed, "exploration", rule);
     rep.assume("'.' and '..' and names containing '/' are outside the domain (reserved entries / path separator)");
     rep.assume("U+FFFF is not part of the accepted set: it is the long-name padding value and cannot be stored");
@@ -653,6 +737,19 @@ pub fn run(tier: Tier, seed: u64) -> i32 {
             let out = eval_hole(&c);
             blk.record(&out, || serde_json::to_value(&c).unwrap());
             out.violation.map(|m| Failure { message: m, case: serde_json::to_value(&c).unwrap(), kind: "hole".into() })
+        });
+        b.exhaustive = true;
+        rep.add(b);
+    }
+    // names longer than 255 bytes that fold (long s -> S, dotless i -> I) onto an entry that exists
+    if !rep.failed() {
+        let lens: Vec<u16> = vec![128, 129, 200, 255];
+        let mut b = run::run_indexed("unacceptable_names_that_fold_onto_an_existing_entry", (lens.len() * 2 * 6) as u64, |i, blk| {
+            let i = i as usize;
+            let c = FoldCase { chars: lens[i / 12], dotless_i: (i / 6) % 2 == 1, mode: (i % 6) as u8 };
+            let out = eval_fold(&c);
+            blk.record(&out, || serde_json::to_value(&c).unwrap());
+            out.violation.map(|m| Failure { message: m, case: serde_json::to_value(&c).unwrap(), kind: "fold".into() })
         });
         b.exhaustive = true;
         rep.add(b);
